@@ -54,7 +54,7 @@ func layout(r *core.Rand, base []byte, binMax int, spec [][2]int) []string {
 func (prop) Gen(r *core.Rand, tier string) []core.Case {
 	n := 300
 	if tier == "thorough" {
-		n = 6000
+		n = 4000
 	}
 	var cs []core.Case
 	fr := core.NewRand(2222)
